@@ -1,5 +1,5 @@
 """Unit registry: which assembled Verus files exist and which properties each carries."""
-from units import expr, builder, smallslices, tables, dfa, bindings, elim, regexp, render, fmtunit, nested, minimize
+from units import expr, builder, smallslices, tables, dfa, bindings, elim, regexp, render, fmtunit, nested, minimize, indent
 
 REGISTRY = {
     'expr':     lambda repo, sd, canary=False: expr.build(repo, sd, canary=canary),
@@ -23,6 +23,7 @@ REGISTRY = {
     'matrix':   lambda repo, sd, canary=False: elim.build_matrix(repo, sd, canary=canary),
     'nested':   lambda repo, sd, canary=False: nested.build(repo, sd, canary=canary),
     'minimize': lambda repo, sd, canary=False: minimize.build(repo, sd, canary=canary),
+    'indent':   lambda repo, sd, canary=False: indent.build(repo, sd, canary=canary),
     'trie':     lambda repo, sd, canary=False: dfa.build_trie(repo, sd, canary=canary),
     'wasm':     lambda repo, sd, canary=False: bindings.build_wasm(repo, sd, canary=canary),
     'python':   lambda repo, sd, canary=False: bindings.build_python(repo, sd, canary=canary),
@@ -35,8 +36,8 @@ PROP_UNITS = {
     'C03': ['classify', 'gates', 'trie'],
     'C04': ['caseconv', 'regexp', 'render'],
     'C05': ['trie', 'render', 'rep', 'splice'],
-    'C06': ['render', 'format', 'trie', 'rep', 'nested'],
-    'C07': ['expr', 'elim', 'matrix', 'regexp', 'builder', 'split', 'escaper', 'caseconv', 'rep', 'splice', 'gates', 'render', 'format', 'order', 'dfa', 'minimize', 'trie', 'cli', 'escape', 'classify', 'nested'],
+    'C06': ['render', 'format', 'trie', 'rep', 'nested', 'indent'],
+    'C07': ['expr', 'elim', 'matrix', 'regexp', 'builder', 'split', 'escaper', 'caseconv', 'rep', 'splice', 'gates', 'render', 'format', 'order', 'dfa', 'minimize', 'trie', 'cli', 'escape', 'classify', 'nested', 'indent'],
     'C08': ['render', 'expr', 'regexp', 'format'],
     'C09': ['tables', 'classify'],
     'C10': ['builder', 'regexp', 'gates', 'order', 'dfa'],
@@ -44,7 +45,7 @@ PROP_UNITS = {
     'C12': ['cli', 'gates'],
     'C13': ['rep', 'splice', 'builder', 'render', 'trie'],
     'C14': ['python'],
-    'C15': ['render'],
+    'C15': ['render', 'indent'],
     'C16': ['expr', 'elim', 'matrix', 'regexp', 'dfa', 'dfa_kf', 'minimize', 'trie', 'render', 'format'],
     'C17': ['wasm'],
 }
